@@ -35,6 +35,9 @@ type Row struct {
 	Payload, Sig, Cert, Roots, Time, Prov, Entry string
 }
 
+// Parallel runs f(0..n-1) on all cores.
+func Parallel(n int, f func(i int)) { parallel(n, f) }
+
 func parallel(n int, f func(i int)) {
 	var wg sync.WaitGroup
 	ch := make(chan int, 64)
